@@ -1266,6 +1266,10 @@ int32_t jls_core_ts_seek(struct jls_core_s * self, uint16_t signal_id, uint8_t l
     return 0;
 }
 
+static inline uint32_t signal_def_samples_per_data(struct jls_core_signal_s * signal_info) {
+    return signal_info->signal_def.samples_per_data;
+}
+
 int32_t jls_core_repair_fsr(struct jls_core_s * self, uint16_t signal_id) {
     ROE(jls_core_signal_validate_typed(self, signal_id, JLS_SIGNAL_TYPE_FSR));
     struct jls_core_signal_s * signal_info = &self->signal_info[signal_id];
@@ -1291,21 +1295,35 @@ int32_t jls_core_repair_fsr(struct jls_core_s * self, uint16_t signal_id) {
     int64_t offset = offsets[level];
     struct jls_core_chunk_s index_head;
 
-    jls_core_fsr_summary_level_alloc(signal_info->track_fsr, level);
-    struct jls_core_fsr_level_s * lvl = signal_info->track_fsr->level[level];
+    struct jls_core_fsr_level_s * lvl = NULL;
     bool skip_summary = false;
 
     while (level > 0) {
         JLS_LOGI("repair_fsr signal_id %d, level %d, offset %" PRIi64, (int) signal_id, (int) level, offset);
 
+        // each level has its own buffers: they hold the chunk just read and feed the level above
+        if (!signal_info->track_fsr->level[level]) {
+            ROE(jls_core_fsr_summary_level_alloc(signal_info->track_fsr, (uint8_t) level));
+        }
+        lvl = signal_info->track_fsr->level[level];
+
         if (jls_core_rd_chunk(self)) {  // read index
             break;
         }
         index_head = self->chunk_cur;
+        if (self->chunk_cur.hdr.payload_length > (sizeof(struct jls_fsr_index_s) + lvl->index_entries * sizeof(int64_t))) {
+            JLS_LOGE("repair_fsr signal_id %d: index chunk too large", (int) signal_id);
+            return JLS_ERROR_PARAMETER_INVALID;
+        }
         memcpy(lvl->index, self->buf->start, self->chunk_cur.hdr.payload_length);
 
         if (jls_core_rd_chunk(self)) {  // read summary
             break;
+        }
+        if (self->chunk_cur.hdr.payload_length > (sizeof(struct jls_payload_header_s)
+                + ((size_t) lvl->summary_entries) * (lvl->summary->header.entry_size_bits / 8))) {
+            JLS_LOGE("repair_fsr signal_id %d: summary chunk too large", (int) signal_id);
+            return JLS_ERROR_PARAMETER_INVALID;
         }
         track->index_head[level] = index_head;
         offset_index_next = index_head.hdr.item_next;
@@ -1355,6 +1373,11 @@ int32_t jls_core_repair_fsr(struct jls_core_s * self, uint16_t signal_id) {
         if (jls_raw_chunk_seek(self->raw, offset) || jls_core_rd_chunk(self)) {
             break;
         }
+        if (self->buf->length > (sizeof(struct jls_payload_header_s)
+                + (((size_t) signal_def_samples_per_data(signal_info)) * jls_datatype_parse_size(signal_info->signal_def.data_type)) / 8)) {
+            JLS_LOGE("repair_fsr signal_id %d: data chunk too large", (int) signal_id);
+            break;
+        }
         memcpy(signal_info->track_fsr->data, self->buf->start, self->buf->length);
         JLS_LOGI("repair_fsr signal_id %d, level %d, offset %" PRIi64 " sample_id %" PRIi64 " to %" PRIi64 " data[0]=%f",
                  (int) signal_id, (int) level, offset,
@@ -1363,11 +1386,13 @@ int32_t jls_core_repair_fsr(struct jls_core_s * self, uint16_t signal_id) {
                  signal_info->track_fsr->data->data[0]);
         signal_info->track_fsr->data_length = signal_info->track_fsr->data->header.entry_count;
 
+        int64_t offset_next = self->chunk_cur.hdr.item_next;
+        jls_raw_seek_end(self->raw);  // a full summary is written by jls_core_fsr_summary1: append, never overwrite
         if (!skip_summary && jls_core_fsr_summary1(signal_info->track_fsr, offset)) {
             JLS_LOGW("could not create summary - repair may not work");
         }
         skip_summary = false;
-        offset = self->chunk_cur.hdr.item_next;
+        offset = offset_next;
     }
     jls_core_fsr_sample_buffer_free(signal_info->track_fsr);
 
